@@ -97,6 +97,7 @@ func c11batch(c *mon.Ctx, g *engine, rng *rand.Rand) {
 	res := make([]*fr.Element, n)
 	rs := make([]fr.Element, n)
 	for i := range res {
+		rs[i] = FrFromBig(randBig(rng, ref.R)) // results are written into used variables
 		res[i] = &rs[i]
 	}
 	if err := banderwagon.BatchMapToScalarField(res, elems); err != nil {
